@@ -850,6 +850,8 @@ class C20(Prop):
         s._log, s._prof = mock.MagicMock(), mock.MagicMock()
         s._uid = 'agent_scheduling.0000'
         s._raptor_queues, s._raptor_tasks, s._raptor_lock = {}, {}, threading.Lock()
+        s._raptor_gone = set()
+        s._cancel_list, s._cancel_lock = [], threading.RLock()
         s._queue_sched = FakeQ()
         s._term = mock.MagicMock()
         s._term.is_set = lambda: False
@@ -857,7 +859,6 @@ class C20(Prop):
         s._named_envs = []
         s._ts_valid = True
         s._try_allocation = lambda task: True
-        s.is_canceled = lambda task: False
 
         def advance(things, state=None, publish=True, push=False, **kw):
             things = things if isinstance(things, list) else [things]
@@ -911,7 +912,8 @@ class C20(Prop):
                     except Exception as e:
                         evs.append(['fail', -997])
         return {'evs': evs, 'queues': [rnum(k) for k in s._raptor_queues],
-                'backlog': [[rnum(k), [uid_of(t['uid']) for t in v]] for k, v in s._raptor_tasks.items()]}
+                'backlog': [[rnum(k), [uid_of(t['uid']) for t in v]] for k, v in s._raptor_tasks.items()],
+                'gone': sorted(rnum(k) for k in s._raptor_gone)}
 
     # ------------------------------------------------------------------ coq
     def _wargs(self, case):
@@ -984,9 +986,9 @@ class C20(Prop):
                                                   L.boolean(o['bound']), L.boolean(o['stdio']))
                         for o in obs['per_req']])
             return '(c20_dispatch_row %s %s)' % (self._dargs(case), ob)
-        return '(c20_sched_row %s %s %s %s)' % (
+        return '(c20_sched_row %s %s %s %s %s)' % (
             self._sargs(case), L.lst([sev_lit(e) for e in obs['evs']]), L.zlist(obs['queues']),
-            L.lst(['(%s, %s)' % (L.Z(n), L.zlist(us)) for n, us in obs['backlog']]))
+            L.lst(['(%s, %s)' % (L.Z(n), L.zlist(us)) for n, us in obs['backlog']]), L.zlist(obs.get('gone', [])))
 
     def model_show(self, case):
         k = case['kind']
@@ -1015,7 +1017,7 @@ class C20(Prop):
                     '(drun %s (mkWorld %s %s %s) %s)' % (
                         envlit(case['tenv']), envlit(case['env0']), envlit(case['env0']),
                         L.boolean(not case['rebound']), L.lst([dreq_lit(r) for r in case['reqs']])))
-        return 'srun (mkS %s []) %s' % (L.zlist(case['queues0']), L.lst([sop_lit(o) for o in case['ops']]))
+        return 'srun (mkS %s [] []) %s' % (L.zlist(case['queues0']), L.lst([sop_lit(o) for o in case['ops']]))
 
     # ------------------------------------------------------------------ misc
     def nontrivial(self, case, obs):
